@@ -54,10 +54,10 @@ def validate(pid, k):
     return meta
 
 
-def run_checks(worker, pid, k, meta):
+def run_checks(worker, pid, k, meta, patch=None):
     """phase 2, in the worker's scratch worktree"""
     wt = "/tmp/sw_%d" % worker
-    patch = "%s%s/out/patch%d.diff" % (PREFIX, pid, k)
+    patch = patch or "%s%s/out/patch%d.diff" % (PREFIX, pid, k)
     env = {"VERIF_REPO": wt, "VERIF_CARGO_TARGET": "/tmp/sw_%d_target" % worker, "VERIF_OUT": "/tmp/sw_%d_out" % worker}
     sh("git checkout -- . && git clean -fdq -e Cargo.lock && cp -n /repo/Cargo.lock .", cwd=wt)
     rc, out = sh("git apply %s" % patch, cwd=wt)
@@ -87,7 +87,7 @@ def run_checks(worker, pid, k, meta):
 
 def main():
     args = sys.argv[1:]
-    workers, only, recheck = 4, None, False
+    workers, only, recheck, from_seeded = 4, None, False, False
     while args and args[0].startswith("--"):
         if args[0] == "--workers":
             workers = int(args[1]); args = args[2:]
@@ -95,7 +95,21 @@ def main():
             only = set(args[1].split(",")); args = args[2:]
         elif args[0] == "--recheck":
             recheck = True; args = args[1:]
+        elif args[0] == "--all-seeded":
+            # regression over everything kept under /verif/seeded (both rounds): phase 2 only, meta.json "ran" rewritten
+            from_seeded = True; recheck = True; args = args[1:]
     jobs = []
+    seeded_jobs = []
+    if from_seeded:
+        import glob
+        for d in sorted(glob.glob("/verif/seeded/C*_*")):
+            name = os.path.basename(d)
+            if only and name not in only:
+                continue
+            if args and name.split("_")[0] not in args:
+                continue
+            seeded_jobs.append(name)
+        args = []
     for pid in args:
         for k in (1, 2, 3):
             if os.path.exists("%s%s/out/patch%d.diff" % (PREFIX, pid, k)):
@@ -107,10 +121,13 @@ def main():
         if not os.path.exists("/tmp/sw_%d" % w):
             sh("git -C /repo worktree add --detach /tmp/sw_%d HEAD -q" % w)
         os.makedirs("/tmp/sw_%d_out" % w, exist_ok=True)
+    for name in seeded_jobs:
+        jobs.append((name, None))
     q = queue.Queue()          # one queue item per (property, variant); a per-property lock serialises the agent worktree
     plocks = {pid: threading.Lock() for pid, _ in jobs}
     # interleave properties so that concurrent workers rarely wait for the same worktree
-    jobs.sort(key=lambda j: (j[1], j[0]))
+    if not from_seeded:
+        jobs.sort(key=lambda j: (j[1], j[0]))
     for j in jobs:
         q.put(j)
     lock = threading.Lock()
@@ -127,6 +144,15 @@ def main():
                 pid, k = q.get_nowait()
             except queue.Empty:
                 return
+            if k is None:
+                dst = "/verif/seeded/" + pid
+                mpath = os.path.join(dst, "meta.json")
+                meta = json.load(open(mpath)); meta["ran"] = []
+                run_checks(w, meta["property"], 0, meta, patch=os.path.join(dst, "patch.diff"))
+                json.dump(meta, open(mpath, "w"), indent=1)
+                with lock:
+                    print(pid, [(r["check"], r["detected"], r.get("no_failing_input")) for r in meta["ran"]], meta.get("error", ""), flush=True)
+                continue
             dst = "/verif/seeded/%s_%d" % (pid, k + OFFSET)
             mpath = os.path.join(dst, "meta.json")
             if os.path.exists(mpath) and recheck:
